@@ -238,11 +238,9 @@ def run(ctx):
     f = ctx.fn(common.TOK % "from_variant_impl::FromVariantImpl<'_>")
     if f:
         ok = False
-        for c in ctx.closures_of(f):
-            for s, toks in tpl.Templates(c).by_stream.items():
-                pass
+        for c in [f] + ctx.closures_of(f):
             Tc = tpl.Templates(c)
-            for s in Tc.root_streams():
+            for s in Tc.by_stream:
                 if Tc.text(s) == "__errors . handle ( ⟨darling_core::options::shape::DataShape⟩ . check ( & ⟨proc_macro2::TokenStream⟩ . fields ) ) ;":
                     ok = True
         ctx.ob("C18.H.variant-level-supports", f.key, "__errors.handle(#shape.check(&#input.fields))", ok, "variant-level supports template")
